@@ -520,11 +520,12 @@ impl<'a> Env<'a> {
                     if vals.len() != 1 || self.probe.opaque_sig.params.len() != 1 {
                         return unsup(format!("call of {name} with {} arguments", vals.len()));
                     }
-                    self.calls += 1;
-                    if self.calls > 1 {
+                    if self.calls > 0 {
                         return unsup(format!("{name} called twice"));
                     }
+                    // a failing argument conversion belongs to the part *before* the call
                     let a = coerce(self.lang, vals[0], self.probe.opaque_sig.params[0])?;
+                    self.calls += 1;
                     self.opaque_arg = Some(a);
                     return Ok(self.opaque_ret);
                 }
